@@ -11,7 +11,7 @@ RULE = ("binImgs: shapes (..., a*n, b*n) with 0-2 leading axes, n in 1..6, float
         "zoom/zoom_rbs: square and non-square arrays with sides order+1 .. order+16 (smallest sides most often), orders 1,3,5, targets as int, (k,k) and (kx,ky); same-size identity, node "
         "interpolation for targets q(n-1)+1, exact reproduction of row/column-anisotropic bivariate polynomials of degree "
         "<= order at linspace(0,n-1,k), complex = real + i imag, output shape = requested shape, both entry points agree. "
-        "azimuthal_average: constant, bounds, own ring average (even sizes). encircled_energy: even sizes 4..64, random / "
+        "azimuthal_average: constant, bounds, own ring average (even sizes). encircled_energy: sizes 3..65 odd and even, random / "
         "Gaussian / off-centre single-pixel non-negative images, fractions in (0,1): starts at 0, monotone, <= 1, both "
         "return modes consistent, reported diameter brackets the crossing, Gaussian trend. Non-trivial: binning n>=2 on a "
         "stack; non-square target or order 5; off-centre energy. Distinct = canonical JSON."
@@ -237,7 +237,7 @@ def azi_body(ctx, case):
 
 @st.composite
 def ee_cases(draw):
-    n = 2 * draw(st.integers(2, 32))
+    n = draw(st.one_of(st.integers(2, 32).map(lambda k: 2 * k), st.integers(3, 65)))
     kind = draw(st.sampled_from(["rand", "gauss", "pixel", "sparse"]))
     if kind == "rand":
         data = draw(gen.float_array((n, n), kind="dense", lo=0, hi=1))
